@@ -52,6 +52,8 @@ package resolver
 //@ func (NonStringPrimitiveResolver).ResolveArg
 //@   property C02 C06 C07 C03 C04
 //@   ensures [raw_kept_no_deps] result.1 == nil && e.Raw == i && len(e.DependsOnParams) == 0 && len(e.DependsOnServices) == 0 && len(e.DependsOnTags) == 0
+// the value is injected as the literal the helpers' exporter prints for it (which carries the type: `float64(2)`, not `2`)
+//@   ensures [code_is_the_exported_literal] e.Code == "dependencyValue(" + exported(i) + ")"
 
 // "$gontainer" (fixed id): the container itself; no dependencies
 //@ func (FixedValueResolver).Supports
